@@ -240,9 +240,14 @@ def run_case(idx, rng, P, rep):
         if c < 0.8:
             obj.sub = Sub(x=tokv(), y=tokv(), b=Sub(y=tokv()) if rng.random() < 0.6 else None)
             flags['sub'] = True
-            if rng.random() < 0.25:
+            q = rng.random()
+            if q < 0.25:
                 obj.sub.owner = obj
                 return 'attach-sub-with-back-reference'
+            if q < 0.4 and obj.sub.b is not None:
+                # the innermost object of the path 'sub.b.y' refers back to the object that depends on it
+                obj.sub.b.owner = obj
+                return 'attach-sub-with-back-reference-from-its-own-subobject'
             return 'attach-sub'
         if c < 0.86:
             obj.other = Sub(x=tokv())
@@ -322,6 +327,10 @@ def run_case(idx, rng, P, rep):
                   start = o.sub
                   via_sub[0] = True
                   rep.count('copies_started_from_back_referencing_subobject')
+              elif isinstance(o.sub, param.Parameterized) and isinstance(o.sub.b, param.Parameterized) and o.sub.b.owner is o and rng.random() < 0.6:
+                  start = o.sub.b
+                  via_sub[0] = True
+                  rep.count('copies_started_from_back_referencing_innermost_object')
               if mech == 'deepcopy':
                   c = copy.deepcopy(start)
               else:
@@ -477,6 +486,10 @@ def run_case(idx, rng, P, rep):
             n_obj, n_oth = len(obj.calls), len(oth.__dict__.get('calls', []))
             detached_sub.x = tokv()
             detached_sub.param.x.bounds = (-tokv() - 1e8, 1e9)
+            if rng.random() < 0.5:
+                # ... nor what is attached below it
+                detached_sub.b = Sub(y=tokv())
+                detached_sub.b.y = tokv()
             rep.count('detached_subobject_probes')
             if len(obj.calls) != n_obj or len(oth.__dict__.get('calls', [])) != n_oth:
                 viol(f'detached-subobject-still-watched-on-{side}', f'{mech}: after {kind} on the {side}, changes of the replaced sub-object ran '
